@@ -98,6 +98,11 @@ struct Variant {
 }
 
 struct Model {
+    /// unusually big / extreme input (sizes and numbers small examples never have)
+    big: bool,
+    /// where `#[derive(..)]` sits relative to the educe attributes, and which other derives share it
+    derive_line: String,
+    derive_last: bool,
     kind: Kind,
     name: String,
     g: Generics,
@@ -399,7 +404,7 @@ fn gen_field_attrs(rng: &mut Rng, traits: &[&str], idx: usize, rich: bool, named
         }
         match *tr {
             "Clone" if has("Copy") => continue,
-            "PartialOrd" if has("Ord") => continue,
+            "PartialOrd" if has("Ord") && !rng.chance(1, 10) => continue,
             "Default" if !default_ok => continue,
             _ => {},
         }
@@ -490,6 +495,12 @@ fn render_attr_list(rng: &mut Rng, frags: &[String], indent: &str) -> String {
     let mut s = String::new();
     let mut i = 0;
     while i < frags.len() {
+        if let Some(raw) = frags[i].strip_prefix('\u{2}') {
+            // a syntactically broken attribute: always on its own
+            s.push_str(&format!("{indent}#[educe({raw})]\n"));
+            i += 1;
+            continue;
+        }
         // other people's attributes and doc comments in between
         if rng.chance(1, 12) {
             s.push_str(&format!(
@@ -504,7 +515,10 @@ fn render_attr_list(rng: &mut Rng, frags: &[String], indent: &str) -> String {
                 ])
             ));
         }
-        let take = if rng.chance(1, 3) { 1 } else { rng.range(1, (frags.len() - i) as u64) as usize };
+        let mut take = if rng.chance(1, 3) { 1 } else { rng.range(1, (frags.len() - i) as u64) as usize };
+        if let Some(k) = frags[i..i + take].iter().position(|f| f.starts_with('\u{2}')) {
+            take = k.max(1);
+        }
         s.push_str(&format!("{indent}#[educe({})]\n", frags[i..i + take].join(", ")));
         i += take;
     }
@@ -589,7 +603,26 @@ fn build_model(rng: &mut Rng, name: &str, opts: &GenOpts) -> Model {
     };
     let kind = if opts.into_heavy && matches!(kind, Kind::Union | Kind::StructUnit) { Kind::StructNamed } else { kind };
     let wide = rng.chance(3, 4);
-    let g = gen_generics(rng, wide && kind != Kind::Union);
+    let big = rng.chance(1, 25);
+    let mut g = gen_generics(rng, wide && kind != Kind::Union);
+    if big && kind != Kind::Union && rng.chance(1, 2) {
+        // more than 8 generic parameters
+        let extra = ["A", "B", "C", "D", "E", "F", "G", "P", "Q", "R", "S", "W"];
+        let n = rng.range(7, 12) as usize;
+        let mut parts: Vec<String> = g.lifetimes.iter().map(|l| l.to_string()).collect();
+        for e in extra.iter().take(n) {
+            if !g.types.contains(e) {
+                g.types.push(e);
+            }
+        }
+        for t in &g.types {
+            parts.push(t.to_string());
+        }
+        for c in &g.consts {
+            parts.push(format!("const {c}: usize"));
+        }
+        g.decl = format!("<{}>", parts.join(", "));
+    }
     let mut traits = pick_traits(rng, kind, wide);
     if opts.into_heavy && !traits.contains(&"Into") {
         traits.push("Into");
@@ -674,7 +707,15 @@ fn build_model(rng: &mut Rng, name: &str, opts: &GenOpts) -> Model {
         Kind::StructUnit => {},
         Kind::StructNamed | Kind::StructTuple | Kind::Union => {
             let named = kind != Kind::StructTuple;
-            let n = if rng.chance(1, 25) { rng.range(13, 18) } else if wide { rng.range(2, 8) } else { rng.range(1, 3) } as usize;
+            let n = if big && kind != Kind::Union {
+                *rng.pick(&[33u64, 40, 65, 101, 130])
+            } else if rng.chance(1, 25) {
+                rng.range(13, 18)
+            } else if wide {
+                rng.range(2, 8)
+            } else {
+                rng.range(1, 3)
+            } as usize;
             fields = gen_fields(rng, &g, named, n, &traits, rich, true);
             if kind == Kind::Union {
                 for f in fields.iter_mut() {
@@ -696,12 +737,34 @@ fn build_model(rng: &mut Rng, name: &str, opts: &GenOpts) -> Model {
             decorate_markers(rng, &mut fields, &traits, &into_targets);
         },
         Kind::Enum => {
-            let nv = if wide { rng.range(2, 6) } else { rng.range(1, 3) } as usize;
+            // "table" enums: many unit variants (cheap to expand, common in generated code)
+            let table = !big && rng.chance(1, 6);
+            if table {
+                // C-like: no field-designating traits (they cannot apply to unit variants)
+                let before = traits.len();
+                traits.retain(|t| !matches!(*t, "Deref" | "DerefMut" | "Into"));
+                if traits.len() != before {
+                    type_frags.retain(|f| !(f.starts_with("Deref") || f.starts_with("Into")));
+                }
+                if traits.is_empty() {
+                    traits.push("Ord");
+                    type_frags.push("Ord".to_string());
+                }
+            }
+            let nv = if big {
+                *rng.pick(&[17u64, 65, 70, 130, 257, 300])
+            } else if table {
+                *rng.pick(&[33u64, 64, 65, 100, 129, 256, 257])
+            } else if wide {
+                rng.range(2, 6)
+            } else {
+                rng.range(1, 3)
+            } as usize;
             let default_variant = rng.usize(nv);
             let with_disc = rng.chance(1, 4);
             let no_unit = traits.iter().any(|t| matches!(*t, "Deref" | "DerefMut" | "Into"));
             for vi in 0..nv {
-                let shape = match if no_unit { rng.range(1, 2) } else { rng.below(3) } {
+                let shape = match if table && !no_unit { 0 } else if no_unit { rng.range(1, 2) } else { rng.below(3) } {
                     0 => Shape::Unit,
                     1 => Shape::Tuple,
                     _ => Shape::Named,
@@ -730,9 +793,12 @@ fn build_model(rng: &mut Rng, name: &str, opts: &GenOpts) -> Model {
                     shape,
                     fields: vfields,
                     disc: if with_disc && shape == Shape::Unit {
-                        Some(match rng.below(6) {
-                            0 => -128 + vi as i64,
-                            1 => 0x7fff_fff0 + vi as i64,
+                        Some(match if big { rng.below(3) } else { 3 + rng.below(6) } {
+                            0 => i64::MIN + 1 + vi as i64,
+                            1 => i64::MAX - 400 + vi as i64,
+                            2 => (1i64 << 40) + vi as i64,
+                            3 => -128 + vi as i64,
+                            4 => 0x7fff_fff0 + vi as i64,
                             _ => (vi as i64) * 3 - 2,
                         })
                     } else {
@@ -744,16 +810,78 @@ fn build_model(rng: &mut Rng, name: &str, opts: &GenOpts) -> Model {
     }
     let repr = if kind == Kind::Enum && rng.chance(1, 5) { Some(*rng.pick(&["u8", "i32", "u64", "C"])) } else { None };
     let vis = *rng.pick(&["", "pub ", "pub(crate) "]);
-    Model { kind, name: name.to_string(), g, traits, type_frags, into_targets, fields, variants, repr, vis }
+    // big inputs: ranks at the ends of the isize range, very long names, deep types, odd literals
+    if big {
+        let mut k = 0i64;
+        let mut all: Vec<&mut Field> = fields.iter_mut().collect();
+        for v in variants.iter_mut() {
+            all.extend(v.fields.iter_mut());
+        }
+        for f in all {
+            for a in f.attrs.iter_mut() {
+                if let Some(i) = a.find("rank = ") {
+                    let tail = &a[i + 7..];
+                    let end = tail.find([',', ')']).unwrap_or(tail.len());
+                    let v = match k % 4 {
+                        0 => format!("{}", i64::MIN + k),
+                        1 => format!("{}", i64::MAX - k),
+                        2 => format!("{}", -1 - k),
+                        _ => format!("{}", (1i64 << 62) + k),
+                    };
+                    a.replace_range(i + 7..i + 7 + end, &v);
+                    k += 1;
+                }
+                if a.starts_with("Default = ") && k % 2 == 0 {
+                    *a = (*rng.pick(&["Default = 0xFFu8", "Default = 1_000_000_000_000i64", "Default = 0b1010_1010", "Default = 1e10", "Default = 0o777u32"])).to_string();
+                }
+            }
+            if rng.chance(1, 10) {
+                // depth > 16
+                let mut t = f.ty.clone();
+                for _ in 0..rng.range(17, 24) {
+                    t = format!("Option<{t}>");
+                }
+                f.ty = t;
+            }
+            if f.name.is_some() && rng.chance(1, 10) {
+                f.name = Some(format!("{}_{}", "an_identifier_that_is_much_longer_than_sixty_four_characters_in_total", k));
+                k += 1;
+            }
+        }
+        // a bound list far longer than 256 bytes
+        if !g.types.is_empty() && rng.chance(1, 2) {
+            if let Some(fr) = type_frags.iter_mut().find(|f| !f.contains('(') && !matches!(f.as_str(), "Deref" | "DerefMut" | "Copy" | "Eq")) {
+                let preds: Vec<String> = (0..24).map(|i| format!("{}: ::core::marker::Sized + ::core::marker::Send + 'static", g.types[i % g.types.len()])).collect();
+                *fr = format!("{fr}(bound({}))", preds.join(", "));
+            }
+        }
+    }
+    let derive_line = match rng.below(8) {
+        0 => "#[derive(Educe, Copy)]".to_string(),
+        1 => "#[derive(PartialEq, Educe)]".to_string(),
+        2 => "#[derive(Clone, Educe, Debug)]".to_string(),
+        3 => "#[derive(educe::Educe)]".to_string(),
+        _ => "#[derive(Educe)]".to_string(),
+    };
+    let derive_last = rng.chance(1, 6);
+    Model { big, derive_line, derive_last, kind, name: name.to_string(), g, traits, type_frags, into_targets, fields, variants, repr, vis }
 }
 
 fn render(rng: &mut Rng, m: &Model) -> String {
     let mut s = String::new();
-    s.push_str("#[derive(Educe)]\n");
+    let _ = m.big;
+    if !m.derive_last {
+        s.push_str(&m.derive_line);
+        s.push('\n');
+    }
     if let Some(r) = m.repr {
         s.push_str(&format!("#[repr({r})]\n"));
     }
     s.push_str(&render_attr_list(rng, &m.type_frags, ""));
+    if m.derive_last {
+        s.push_str(&m.derive_line);
+        s.push('\n');
+    }
     let (name, vis, g) = (&m.name, m.vis, &m.g);
     match m.kind {
         Kind::StructUnit => s.push_str(&format!("{vis}struct {name}{}{};\n", g.decl, g.where_clause)),
@@ -795,7 +923,8 @@ fn render(rng: &mut Rng, m: &Model) -> String {
 
 // ------------------------------------------------------------------ faults
 
-pub const FAULT_CLASSES: [&str; 17] = [
+pub const FAULT_CLASSES: [&str; 18] = [
+    "attr_syntax",
     "repeated_traits",
     "unsupported_traits",
     "trait_not_used",
@@ -1148,6 +1277,24 @@ fn inject(rng: &mut Rng, m: &mut Model, class: &str) {
                 },
             }
         },
+        "attr_syntax" => {
+            // an `#[educe(..)]` attribute whose argument list does not even parse — as one of
+            // several attributes of the item (or of a field), so that the others are fine
+            let broken = [
+                "Debug Clone", "Debug,, Clone", "PartialEq Eq", "Debug(name = )", "=", "Debug(bound(T:))", "Clone(())", "Hash(ignore,,)",
+                "Into(u8 u16)", "Default(expression = )", "Ord(rank = = 1)", "Debug; Clone", "Debug(name(a b))", "'a",
+            ];
+            let b = format!("\u{2}{}", rng.pick(&broken));
+            if rng.chance(3, 4) {
+                // not the first attribute: something valid comes before it
+                let pos = if m.type_frags.is_empty() { 0 } else { rng.range(1, m.type_frags.len() as u64) as usize };
+                m.type_frags.insert(pos, b);
+            } else if let Some(f) = some_fields(rng, m, 1).pop() {
+                f.attrs.push(b);
+            } else {
+                m.type_frags.push(b);
+            }
+        },
         "educe_format" => {
             // handled at render time through a marker fragment
             m.type_frags.push("\u{1}educe_format".to_string());
@@ -1184,7 +1331,7 @@ pub fn generate_ex(rng: &mut Rng, name: &str, opts: &GenOpts, force: &[&'static 
     if malformed {
         // `#[educe = ..]` / bare `#[educe]` instead of a list
         let extra = *rng.pick(&["#[educe]\n", "#[educe = \"Debug\"]\n", "#[educe()]\n"]);
-        s = s.replacen("#[derive(Educe)]\n", &format!("#[derive(Educe)]\n{extra}"), 1);
+        s = format!("{extra}{s}");
     }
     (s, classes)
 }
@@ -1215,7 +1362,7 @@ pub fn edited_copy(rng: &mut Rng, text: &str) -> Option<String> {
             break;
         }
         // enums: discriminant edits are the commonest real edit and get extra weight
-        let choice = if matches!(di.data, syn::Data::Enum(_)) && rng.chance(1, 3) { 0 } else { rng.below(7) };
+        let choice = if matches!(di.data, syn::Data::Enum(_)) && rng.chance(1, 3) { 0 } else { rng.below(10) };
         match (&mut di.data, choice) {
             (syn::Data::Enum(e), 0) if !e.variants.is_empty() => {
                 // new discriminant values on the unit variants (other magnitudes)
@@ -1290,6 +1437,62 @@ pub fn edited_copy(rng: &mut Rng, text: &str) -> Option<String> {
                         }
                     }
                 }
+            },
+            (_, 7) => {
+                // a requested trait is replaced by its sibling (Deref <-> DerefMut, PartialOrd <-> Ord, ...)
+                let pairs = [("Deref", "DerefMut"), ("PartialOrd", "Ord"), ("PartialEq", "Eq"), ("Clone", "Copy"), ("Debug", "Hash")];
+                let (a, b) = *rng.pick(&pairs);
+                let (from, to) = if rng.chance(1, 2) { (a, b) } else { (b, a) };
+                let mut changed = false;
+                for at in di.attrs.iter_mut() {
+                    if !at.path().is_ident("educe") {
+                        continue;
+                    }
+                    if let syn::Meta::List(l) = &mut at.meta {
+                        let toks: Vec<proc_macro2::TokenTree> = l.tokens.clone().into_iter().collect();
+                        let new: proc_macro2::TokenStream = toks
+                            .into_iter()
+                            .map(|tt| match &tt {
+                                proc_macro2::TokenTree::Ident(i) if i == from && !changed => {
+                                    changed = true;
+                                    proc_macro2::TokenTree::Ident(proc_macro2::Ident::new(to, i.span()))
+                                },
+                                _ => tt,
+                            })
+                            .collect();
+                        l.tokens = new;
+                    }
+                }
+                if changed {
+                    done += 1;
+                }
+            },
+            (data, 8) => {
+                // the field-level requests of one field (or of every field) disappear
+                let mut fields: Vec<&mut syn::Field> = match data {
+                    syn::Data::Struct(s) => s.fields.iter_mut().collect(),
+                    syn::Data::Enum(e) => e.variants.iter_mut().flat_map(|v| v.fields.iter_mut()).collect(),
+                    syn::Data::Union(u) => u.fields.named.iter_mut().collect(),
+                };
+                let with: Vec<usize> = (0..fields.len()).filter(|k| fields[*k].attrs.iter().any(|a| a.path().is_ident("educe"))).collect();
+                if with.is_empty() {
+                    continue;
+                }
+                if rng.chance(1, 2) {
+                    let k = *rng.pick(&with);
+                    fields[k].attrs.retain(|a| !a.path().is_ident("educe"));
+                } else {
+                    for k in with {
+                        fields[k].attrs.retain(|a| !a.path().is_ident("educe"));
+                    }
+                }
+                done += 1;
+            },
+            (_, 9) => {
+                // one more trait is requested
+                let t = syn::Ident::new(*rng.pick(&TRAITS[..11]), proc_macro2::Span::call_site());
+                di.attrs.push(syn::parse_quote!(#[educe(#t)]));
+                done += 1;
             },
             (_, 6) => {
                 // drop one educe attribute line (one or more requested traits disappear)
